@@ -22,9 +22,11 @@ import (
 	"os"
 	"os/exec"
 	"path/filepath"
+	"runtime"
 	"sort"
 	"strings"
 	"sync"
+	"time"
 )
 
 var thoroughMode bool
@@ -68,6 +70,15 @@ func runThorough(id string, c *Checker, p *Prog, l *Ledger, repo string) {
 		l.Paths += l2.Paths
 		l.States += l2.States
 		cfgNames = append(cfgNames, fmt.Sprintf("%s: %d packages, %d module functions, %d obligations, %d not discharged", name, len(p2.Pkgs), len(p2.ModuleFuncs()), len(l2.Obls), bad))
+		// the program of this configuration is not needed any more: drop it and everything cached for it
+		delete(lexCache, p2)
+		delete(clauseCache, p2)
+		delete(interpInfoCache, p2)
+		delete(parserCache, p2)
+		delete(universeCache, p2)
+		delete(wiringCache, p2)
+		p2 = nil
+		runtime.GC()
 	}
 	l.Extra["build_configurations"] = append([]string{fmt.Sprintf("default: %d packages, %d module functions", len(p.Pkgs), len(p.ModuleFuncs()))}, cfgNames...)
 	// T3
@@ -121,13 +132,21 @@ func selfTest(id string, l *Ledger, repo string) {
 	}
 	results := make([]seedResult, len(mine))
 	var wg sync.WaitGroup
-	sem := make(chan bool, 4)
+	// each child process holds a whole program in memory (1–2 GB): two at a time, one when memory is short
+	width := 2
+	if memAvailableGB() < 24 {
+		width = 1
+	}
+	sem := make(chan bool, width)
 	for i, d := range mine {
 		wg.Add(1)
 		go func(i int, d string) {
 			defer wg.Done()
 			sem <- true
 			defer func() { <-sem }()
+			for w := 0; w < 60 && memAvailableGB() < 6; w++ {
+				time.Sleep(time.Second) // other checks are running: wait for memory rather than be killed
+			}
 			results[i] = runSeed(self, id, d, repo, l.VerifDir)
 		}(i, d)
 	}
@@ -192,6 +211,12 @@ func runSeed(self, id, seedDir, repo, verifDir string) seedResult {
 		}
 		return seedResult{name, "fired", ""}
 	}
+	if err != nil {
+		// neither a clean pass nor a report: the child process itself failed (killed for memory, crashed)
+		if ee, ok := err.(*exec.ExitError); !ok || ee.ExitCode() != 1 {
+			return seedResult{name, "skipped", "the checker process for the changed tree did not finish: " + err.Error()}
+		}
+	}
 	return seedResult{name, "silent", firstLine(txt)}
 }
 
@@ -204,4 +229,20 @@ func firstLine(s string) string {
 		s = s[:300]
 	}
 	return s
+}
+
+// memAvailableGB reads MemAvailable from /proc/meminfo (a large value when it cannot be read).
+func memAvailableGB() float64 {
+	b, err := os.ReadFile("/proc/meminfo")
+	if err != nil {
+		return 1 << 20
+	}
+	for _, ln := range strings.Split(string(b), "\n") {
+		if strings.HasPrefix(ln, "MemAvailable:") {
+			var kb float64
+			fmt.Sscanf(strings.TrimSpace(strings.TrimPrefix(ln, "MemAvailable:")), "%f", &kb)
+			return kb / (1 << 20)
+		}
+	}
+	return 1 << 20
 }
